@@ -28,6 +28,7 @@ type c20nCase struct {
 	ScriptA []string       `json:"script_a"`
 	ScriptB []string       `json:"script_b"`
 	Ats     []int          `json:"ats"` // B's next request is served when A's run reaches its Ats[i]-th yield point
+	Pre     int            `json:"pre"` // this many of B's requests are served before A starts (so that a later request of B's script is the nested one)
 }
 
 func c20nRun(c c20nCase) (*Violation, int) {
@@ -79,6 +80,10 @@ func c20nRun(c c20nCase) (*Violation, int) {
 	w.B.Yield, w.Mail.Yield, w.Log.Yield = hook, hook, hook
 	a.gate = func() { inA = true }
 	a.ungate = func() { inA = false }
+	inB = true
+	for i := 0; i < c.Pre && serveB(); i++ {
+	}
+	inB = false
 	a.run(c.ScriptA)
 	inB = true
 	for serveB() {
@@ -137,7 +142,7 @@ func c20nGen(t *rapid.T) c20nCase {
 	}
 	c.Cfg.OneTimeTOTP = chance(t, "onetimetotp", 60)
 	steps := func(label string) []string {
-		n := rapid.IntRange(1, 4).Draw(t, label)
+		n := rapid.IntRange(1, 2).Draw(t, label)
 		var sc []string
 		for j := 0; j < n; j++ {
 			sc = append(sc, pick(t, "step", c20Steps...))
@@ -145,10 +150,15 @@ func c20nGen(t *rapid.T) c20nCase {
 		return sc
 	}
 	c.ScriptA, c.ScriptB = steps("na"), steps("nb")
-	// yield points of A's run at which B gets a request served: increasing, mostly early and dense
+	if chance(t, "samekind", 50) {
+		// both clients in the same flow: shared state of one module is touched from both sides
+		c.ScriptB = append([]string(nil), c.ScriptA...)
+	}
+	// B's script advances to some request first; then yield points of A's run at which B gets a request served
+	c.Pre = rapid.IntRange(0, 9).Draw(t, "pre")
 	at := 0
-	for k := rapid.IntRange(1, 8).Draw(t, "npoints"); k > 0; k-- {
-		at += rapid.IntRange(1, 12).Draw(t, "gap")
+	for k := rapid.IntRange(1, 6).Draw(t, "npoints"); k > 0; k-- {
+		at += rapid.IntRange(1, 14).Draw(t, "gap")
 		c.Ats = append(c.Ats, at)
 	}
 	return c
@@ -164,7 +174,7 @@ func TestC20Nested(t *testing.T) {
 		if nested >= 2 {
 			classes = append(classes, "nested>=2")
 		}
-		s.record(nested >= 1, fnv64(fmt.Sprint(c.ScriptA, c.ScriptB, c.Ats), "nested", fmt.Sprint(c.Cfg.JSON, c.Cfg.OneTimeTOTP, c.Cfg.Err500)), classes, func() interface{} { return c })
+		s.record(nested >= 1, fnv64(fmt.Sprint(c.ScriptA, c.ScriptB, c.Ats, c.Pre), "nested", fmt.Sprint(c.Cfg.JSON, c.Cfg.OneTimeTOTP, c.Cfg.Err500)), classes, func() interface{} { return c })
 		handle(rt, v, "c20n", c)
 	})
 }
